@@ -627,3 +627,101 @@ func (w *World) writersObligations(prop string) *FuncResult {
 	}
 	return res
 }
+
+// currentLocals: the named local variables of a function (closures included) in declaration order - := definitions, var
+// declarations, range variables; not parameters, results or the receiver.
+func (w *World) currentLocals(fn *ssa.Function) []LocalEntry {
+	syn := fn.Syntax()
+	if syn == nil || fn.Pkg == nil {
+		return nil
+	}
+	pkg := w.allPkgs[fn.Pkg.Pkg.Path()]
+	if pkg == nil || pkg.TypesInfo == nil {
+		return nil
+	}
+	var body ast.Node
+	skip := map[*ast.Ident]bool{}
+	switch d := syn.(type) {
+	case *ast.FuncDecl:
+		body = d.Body
+	case *ast.FuncLit:
+		body = d.Body
+	}
+	if body == nil {
+		return nil
+	}
+	// parameters and results of nested function literals are not locals of interest either
+	ast.Inspect(body, func(n ast.Node) bool {
+		if fl, ok := n.(*ast.FuncLit); ok && fl.Type != nil {
+			for _, fl2 := range []*ast.FieldList{fl.Type.Params, fl.Type.Results} {
+				if fl2 == nil {
+					continue
+				}
+				for _, f := range fl2.List {
+					for _, id := range f.Names {
+						skip[id] = true
+					}
+				}
+			}
+		}
+		return true
+	})
+	var out []LocalEntry
+	qual := func(p *types.Package) string { return p.Name() }
+	ast.Inspect(body, func(n ast.Node) bool {
+		id, ok := n.(*ast.Ident)
+		if !ok || skip[id] || id.Name == "_" {
+			return true
+		}
+		obj := pkg.TypesInfo.Defs[id]
+		v, ok := obj.(*types.Var)
+		if !ok || v.IsField() {
+			return true
+		}
+		out = append(out, LocalEntry{Name: id.Name, Type: types.TypeString(v.Type(), qual)})
+		return true
+	})
+	return out
+}
+
+// localAliases: for a contract that recorded the function's locals, the names a recorded local may go by now.  Entries
+// are paired per type in declaration order (the j-th recorded local of a type with the j-th current one), for the types
+// that still have as many locals as were recorded; a pair with two different names is a rename.
+func (w *World) localAliases(fn *ssa.Function, fc *FuncContract) map[string][]string {
+	if fc == nil || len(fc.Locals) == 0 {
+		return nil
+	}
+	cur := w.currentLocals(fn)
+	byType := func(es []LocalEntry) map[string][]string {
+		m := map[string][]string{}
+		for _, e := range es {
+			m[e.Type] = append(m[e.Type], e.Name)
+		}
+		return m
+	}
+	rec, now := byType(fc.Locals), byType(cur)
+	out := map[string][]string{}
+	for t, names := range rec {
+		cn := now[t]
+		if len(cn) != len(names) {
+			continue
+		}
+		for i, old := range names {
+			if cn[i] != old {
+				dup := false
+				for _, x := range out[old] {
+					if x == cn[i] {
+						dup = true
+					}
+				}
+				if !dup {
+					out[old] = append(out[old], cn[i])
+				}
+			}
+		}
+	}
+	if len(out) == 0 {
+		return nil
+	}
+	return out
+}
